@@ -52,7 +52,8 @@ def main():
         if r.returncode:
             print(r.stderr); return 2
         ct = os.path.join(verif, "harness", "Cargo.toml")
-        open(ct, "w").write(open(ct).read().replace('"/repo/', '"%s/' % repo))
+        txt = open(ct).read().replace('"/repo/', '"%s/' % repo)
+        open(ct, "w").write(txt)
     r = sh(["git", "-C", repo, "apply", patch])
     if r.returncode:
         print("patch does not apply: " + r.stderr); return 2
